@@ -4,18 +4,13 @@ import Witverif.Proofs.Heck
 namespace Witverif.Text.CIdent
 open Witverif.Text Witverif.Text.Heck Witverif.Text.CIdentSpec Witverif.Generated.CIdent
 
-/-- C keywords the escape table does not know -/
-def missingKeywords : List (List Char) := ["restrict", "typeof"].map String.toList
-
 theorem escapes_safe_all :
     escapeTable.all (fun e => !cKeywords.contains e.2 && e.2 == e.1 ++ ['_']) = true := by
   decide +kernel
 
-theorem keywords_lod_all : cKeywords.all (fun kw => kw.all lod) = true := by
-  decide +kernel
-
+/-- every reserved word has an arm -/
 theorem keywords_covered_all :
-    cKeywords.all (fun kw => (lookup escapeTable kw).isSome || missingKeywords.contains kw) = true := by
+    cKeywords.all (fun kw => (lookup escapeTable kw).isSome) = true := by
   decide +kernel
 
 theorem lookup_mem {t : List (List Char × List Char)} {name v : List Char} (h : lookup t name = some v) :
@@ -28,23 +23,10 @@ theorem lookup_mem {t : List (List Char × List Char)} {name v : List Char} (h :
 
 theorem not_lod_underscore : lod '_' = false := by decide
 
-theorem map_sepU_lod (name : List Char) (h : ∀ c ∈ name.map sepU, lod c = true) : name.map sepU = name := by
-  induction name with
-  | nil => rfl
-  | cons c cs ih =>
-    simp only [List.map_cons, List.mem_cons, forall_eq_or_imp] at h
-    have hc : sepU c = c := by
-      unfold sepU at h ⊢
-      split
-      · rfl
-      · rename_i hn
-        simp [hn, not_lod_underscore] at h
-    simp only [List.map_cons, hc, ih h.2]
-
-theorem toCIdent_not_keyword (name : List Char) (hs : simpleTail true name = true)
-    (hm : name ∉ missingKeywords) : toCIdent name ∉ cKeywords := by
+/-- `to_c_ident` never yields a reserved word — any input whatsoever -/
+theorem toCIdent_not_keyword (name : List Char) : toCIdent name ∉ cKeywords := by
   unfold toCIdent
-  cases hl : lookup escapeTable name with
+  cases hl : lookup escapeTable (snake name) with
   | some v =>
     obtain ⟨e, he, rfl⟩ := lookup_mem hl
     have := List.all_eq_true.mp escapes_safe_all e he
@@ -52,15 +34,9 @@ theorem toCIdent_not_keyword (name : List Char) (hs : simpleTail true name = tru
     simpa using this.1
   | none =>
     simp only
-    rw [snake_simple name hs]
     intro hk
-    have hl' : ∀ c ∈ name.map sepU, lod c = true := by
-      have := List.all_eq_true.mp keywords_lod_all _ hk
-      exact fun c hc => List.all_eq_true.mp this c hc
-    rw [map_sepU_lod name hl'] at hk
     have := List.all_eq_true.mp keywords_covered_all _ hk
-    simp only [hl, Option.isSome_none, Bool.false_or, List.contains_eq_mem, decide_eq_true_eq] at this
-    exact hm this
+    simp [hl] at this
 
 /-- kebab names: lower-case letters, digits and `-` -/
 def kebab (s : List Char) : Prop := ∀ c ∈ s, lod c = true ∨ c = '-'
